@@ -15,7 +15,8 @@ const RULE: &str = "positions s < 4^n: exhaustive for the low depths x all 6 ori
 for pairwise distinctness), and for n up to 29 the position classes (zero, max, digit patterns, block boundaries, \
 uniform). Oracles: centre of the pentagon at s strictly inside the quintant triangle (barycentric signs), locating \
 the centre returns s, the pentagon contains its centre, centres pairwise distinct. non-trivial = n >= 2 and the \
-digits of s are not all equal (the walk changes flip state / may shift digits); distinct by (n, orientation, s).";
+digits of s are not all equal (the walk changes flip state / may shift digits); distinct by (n, orientation, s). The same positions are also placed in quintants 1..4 (rotated back by the harness), and \
+the cells containing points of the face plane's coordinate axes are checked in their own quintant.";
 
 pub const ORIENTATIONS: [Orientation; 6] = [Orientation::UV, Orientation::VU, Orientation::UW, Orientation::WU, Orientation::VW, Orientation::WV];
 
@@ -35,10 +36,18 @@ fn bary(t: &[P2; 3], p: P2) -> [f64; 3] {
 
 /// Returns the pentagon centre (in units of the depth-n lattice, i.e. scaled by 2^n).
 pub fn check_position(n: usize, o: usize, s: u64, st: &mut Stats) -> Result<P2, String> {
+    check_position_in(n, o, s, 0, st)
+}
+
+/// The same for the pentagon placed in quintant `q`: the harness rotates it back by -72q degrees
+/// (its own rotation) before judging it in the quintant-0 frame.
+pub fn check_position_in(n: usize, o: usize, s: u64, q: usize, st: &mut Stats) -> Result<P2, String> {
     let orient = ORIENTATIONS[o];
     let anchor = s_to_anchor(s, n, orient);
-    let shape = get_pentagon_vertices(n as i32, 0, &anchor);
-    let vs: Vec<P2> = shape.get_vertices_vec().iter().map(|f| [f.x(), f.y()]).collect();
+    let shape = get_pentagon_vertices(n as i32, q % 5, &anchor);
+    let a = -(std::f64::consts::TAU / 5.0) * (q % 5) as f64;
+    let (ca, sa) = (a.cos(), a.sin());
+    let vs: Vec<P2> = shape.get_vertices_vec().iter().map(|f| [ca * f.x() - sa * f.y(), sa * f.x() + ca * f.y()]).collect();
     if vs.len() != 5 {
         return Err(format!("pentagon at n={}, {:?}, s={} has {} vertices", n, orient, s, vs.len()));
     }
@@ -98,6 +107,32 @@ fn check_exhaustive_block(n: usize, o: usize, st: &mut Stats) -> Result<(), Stri
     Ok(())
 }
 
+/// Cells that contain a point of one of the face plane's coordinate axes (where one planar
+/// coordinate is tiny relative to the other), in the quintant the point falls in.
+fn check_axis_cell(n: usize, o: usize, axis: u8, t: f64, st: &mut Stats) -> Result<(), String> {
+    let r = 0.02 + 0.74 * t; // inside the face pentagon along the axis direction, short of the edge
+    let ang = std::f64::consts::FRAC_PI_2 * (axis % 4) as f64;
+    let p = [r * ang.cos(), r * ang.sin()];
+    // quintant by the library's own rule (rounding gamma / 72deg), then rotate back with the harness's rotation
+    let gamma = p[1].atan2(p[0]);
+    let q = ((gamma / (std::f64::consts::TAU / 5.0)).round() as i64).rem_euclid(5) as usize;
+    let a = -(std::f64::consts::TAU / 5.0) * q as f64;
+    let p0 = [a.cos() * p[0] - a.sin() * p[1], a.sin() * p[0] + a.cos() * p[1]];
+    // keep to the quintant triangle (the axis may leave it near the face edge)
+    let b = bary(&triangle(), p0);
+    if b[0].min(b[1]).min(b[2]) <= 0.0 {
+        return Ok(());
+    }
+    let scale = (1u64 << n) as f64;
+    let s = ij_to_s(face_to_ij(Face::new(p0[0] * scale, p0[1] * scale)), n, ORIENTATIONS[o]);
+    if s >> (2 * n) != 0 {
+        return Ok(());
+    }
+    check_position_in(n, o, s, q, st)?;
+    st.hit(&format!("axis-cell:quintant{}", q));
+    Ok(())
+}
+
 pub fn run(tier: Tier, seed: u64) -> Report {
     let mut rep = Report::new("C17", tier, seed, RULE);
     rep.assume("pentagon centre = mean of the five reported vertices; quintant triangle = (u, v, w) of core::pentagon");
@@ -146,7 +181,33 @@ pub fn run(tier: Tier, seed: u64) -> Report {
         },
         |(n, o, class, raw, k)| json!({"n": n, "o": o, "class": class, "raw": raw, "k": k}),
     );
-    rep.absorb("deep", r);
+    if !rep.absorb("deep", r) {
+        return rep;
+    }
+    // the same positions placed in the other quintants (the library rotates the pentagon; the harness rotates back)
+    let r = run_pbt(
+        "deep-quintants",
+        seed,
+        tier.pick(100_000, 3_000_000),
+        || (1usize..=29, 0usize..6, 0u8..9, any::<u64>(), 0u8..32, 1usize..5).boxed(),
+        |(n, o, class, raw, k, q), st| {
+            let s = gen::make_pos(*class, *raw, *k, *n as u32);
+            check_position_in(*n, *o, s, *q, st).map(|_| ())
+        },
+        |(n, o, class, raw, k, q)| json!({"n": n, "o": o, "class": class, "raw": raw, "k": k, "q": q}),
+    );
+    if !rep.absorb("deep-quintants", r) {
+        return rep;
+    }
+    let r = run_pbt(
+        "axis-cells",
+        seed,
+        tier.pick(100_000, 3_000_000),
+        || (prop_oneof![1 => 1usize..=29, 2 => 26usize..=29], 0usize..6, 0u8..4, 0.0f64..1.0).boxed(),
+        |(n, o, axis, t), st| check_axis_cell(*n, *o, *axis, *t, st),
+        |(n, o, axis, t)| json!({"n": n, "o": o, "axis": axis, "t": t}),
+    );
+    rep.absorb("axis-cells", r);
     rep
 }
 
@@ -154,6 +215,12 @@ pub fn replay(section: &str, case: &Value) -> Option<Result<(), String>> {
     let mut st = Stats::default();
     Some(guarded(|| match section {
         "exhaustive" => check_exhaustive_block(case["n"].as_u64().ok_or("bad case")? as usize, case["orientation"].as_u64().ok_or("bad case")? as usize, &mut st),
+        "deep-quintants" => {
+            let n = case["n"].as_u64().ok_or("bad case")? as usize;
+            let s = gen::make_pos(case["class"].as_u64().ok_or("bad case")? as u8, case["raw"].as_u64().ok_or("bad case")?, case["k"].as_u64().ok_or("bad case")? as u8, n as u32);
+            check_position_in(n, case["o"].as_u64().ok_or("bad case")? as usize, s, case["q"].as_u64().ok_or("bad case")? as usize, &mut st).map(|_| ())
+        }
+        "axis-cells" => check_axis_cell(case["n"].as_u64().ok_or("bad case")? as usize, case["o"].as_u64().ok_or("bad case")? as usize, case["axis"].as_u64().ok_or("bad case")? as u8, case["t"].as_f64().ok_or("bad case")?, &mut st),
         "deep" => {
             let n = case["n"].as_u64().ok_or("bad case")? as usize;
             let s = gen::make_pos(case["class"].as_u64().ok_or("bad case")? as u8, case["raw"].as_u64().ok_or("bad case")?, case["k"].as_u64().ok_or("bad case")? as u8, n as u32);
